@@ -804,6 +804,15 @@ package iscp
 //@   assert call sentStorage).List: flushed && arg1 == u.ID
 //@   ensures imp(result == nil, flushed && sawEmpty)
 //@   loop 1 invariant flushed
+// C08: only an arriving ack signals receivedAck, so before the drain loop waits on it a wake-up is
+// armed for each of the two bounds that govern Close - the caller's context and the stream's close
+// timeout; otherwise an expired bound is never looked at again and Close blocks for good.
+//@   ghostvar wakeOnCtx bool = false
+//@   ghostvar wakeOnTimeout bool = false
+//@   after call context.AfterFunc: wakeOnCtx = wakeOnCtx || arg0 == ctx
+//@   after call context.AfterFunc: wakeOnTimeout = wakeOnTimeout || arg0 == parentCtx
+//@   assert[C08] call Cond).Wait: wakeOnCtx && wakeOnTimeout
+//@   loop 1 invariant[C08] wakeOnCtx && wakeOnTimeout
 
 // ---------------------------------------------------------------- C03: metadata forwarders
 // The per-source forwarders of a metadata subscription live as long as the wire connection they
